@@ -269,9 +269,14 @@ def oracle_content(case, impl):
                 if a[1] == "1":
                     S[tgt].cnt = {}
                     S[tgt].lossy = S[tgt].removed_after_loss = False
-                for p in a[2:]:
-                    k, v = p.split(":")
-                    S[tgt].add(int(k), int(v))
+                prs = [(int(p.split(":")[0]), int(p.split(":")[1])) for p in a[2:]]
+                if S[tgt].num and any(v == 0 for _, v in prs) and \
+                        len(set(S[tgt].cnt) | {k for k, v in prs if v > 0}) > S[tgt].num:
+                    # a batch that both overflows a num sketch and removes: whichever order the batch is
+                    # applied in, an eviction can precede the removal (the D21 situation inside one call)
+                    S[tgt].lossy = S[tgt].removed_after_loss = True
+                for k, v in prs:
+                    S[tgt].add(k, v)
             elif o == "clear":
                 tgt = int(a[0])
                 S[tgt].cnt = {}
